@@ -2,12 +2,14 @@
 package c01
 
 import (
+	"context"
 	"encoding/json"
 	"fmt"
 	"regexp"
 	"sort"
 	"strings"
 	"testing"
+	"time"
 
 	"github.com/open2b/scriggo"
 	"pgregory.net/rapid"
@@ -45,10 +47,18 @@ func runScriggo(src string) (o outcome) {
 		o.buildErr = res.BuildErr.Error()
 		return
 	}
-	r := sg.RunProgram(p, sg.Opts{})
+	// gc's run of the same program terminated (the reference marks the others as outside the
+	// domain), so a run that does not end within a minute is a divergence, not a long program
+	ctx, cancel := context.WithTimeout(context.Background(), time.Minute)
+	defer cancel()
+	r := sg.RunProgram(p, sg.Opts{Ctx: ctx})
 	o.out = r.Printed
 	if r.RunPanic != nil {
 		o.hostPanic = fmt.Sprintf("Run panicked: %v", r.RunPanic)
+		return
+	}
+	if r.RunErr == context.DeadlineExceeded {
+		o.otherErr = "the program does not terminate within one minute (gc's run of it terminates)"
 		return
 	}
 	if r.RunErr != nil {
